@@ -630,14 +630,14 @@ PROPS = {
     ),
     "C08": dict(
         lean="AnyDB.Props.C08",
-        lean_extra=["AnyDB.Props.C08Dirty", "AnyDB.Props.C08Pages"],
+        lean_extra=["AnyDB.Props.C08Dirty", "AnyDB.Props.C08Pages", "AnyDB.Props.C08Comp"],
         runs=[
             Run("vec", "plain-reads", ["--mode", "plain", "--reads"], (140, 50), (600, 110), proj_vec, ["C08", "panic"], vec_features),
             Run("vec", "rollback-reads", ["--mode", "rollback", "--reads"], (84, 50), (350, 100), proj_vec, ["C08", "panic"], vec_features),
         ],
         rule=VEC_RULE + "; about one request in five is `reads <seed>`: 24 ranges with ends drawn from {0, 1, stored-1, stored, stored+1, len-1, len, len+1, page-1, page, page+1, 2^63-1} or uniformly (reversed, empty and out-of-range included) and 12 point reads, each through every read API of the read-write vector, and on clean states also of its read-only clone and the two stored-only scan back-ends; cursor scripts and sorted reads on hole-free states",
         assumptions=["cursor and sorted reads address by index only on vectors without deleted slots (the chunked refill of a cursor compacts deleted slots away): they are exercised on hole-free states"],
-        level_text="Lean 4 theorem for every state of a raw vector with deleted and overlaid slots (Props/C08Dirty.lean, C08_dirty_stored): the merged iteration of fold_dirty / try_fold_dirty over the stored part returns, for every disk image, every ascending list of deleted slots and every ascending overlay, exactly the non-deleted elements of the range in index order, each with its overlay value if it has one; and for the compressed formats (Props/C08Pages.lean, C08_pages_range): read_stored_pages_into over ANY number of pages equals the slice of the stored values, for every page index with full pages before the last, every page size and every from < to ≤ stored length. Further: Lean 4 theorems on the index arithmetic of the read paths, for all lists, ranges, page and chunk sizes: the clean raw path (stored slice + buffered slice, both ends clamped) returns exactly the logical contents restricted to [from,to), reversed/out-of-range ⇒ [] (C08_rawClean, sliceOf_*); a cursor's chunk-aligned refill answers get(i) with element i for every chunk size (C08_cursor_get); a compressed range inside one page reads page[from-start, to-start) (C08_pages_single); the merged dirty iteration without overlay is the disk slice (C08_dirty_no_overlay), and handles a deleted+overlaid slot (example = the F25 history). Tied to the code by running, on every `reads` request, 24 ranges × 11 range APIs + aggregates + 12 point reads + cursor scripts + sorted reads on the read-write vector, its read-only clone and both stored-scan back-ends against the reference slice (oracle) and against the model's answer hash.",
+        level_text="Lean 4 theorem for every state of a raw vector with deleted and overlaid slots (Props/C08Dirty.lean, C08_dirty_stored): the merged iteration of fold_dirty / try_fold_dirty over the stored part returns, for every disk image, every ascending list of deleted slots and every ascending overlay, exactly the non-deleted elements of the range in index order, each with its overlay value if it has one; and for the compressed formats (Props/C08Pages.lean, C08_pages_range): read_stored_pages_into over ANY number of pages equals the slice of the stored values, for every page index with full pages before the last, every page size and every from < to ≤ stored length. Further: Lean 4 theorems on the index arithmetic of the read paths, for all lists, ranges, page and chunk sizes: the clean raw path (stored slice + buffered slice, both ends clamped) returns exactly the logical contents restricted to [from,to), reversed/out-of-range ⇒ [] (C08_rawClean, sliceOf_*); a cursor's chunk-aligned refill answers get(i) with element i for every chunk size (C08_cursor_get); a compressed range inside one page reads page[from-start, to-start) (C08_pages_single); the merged dirty iteration without overlay is the disk slice (C08_dirty_no_overlay), and handles a deleted+overlaid slot (example = the F25 history). Tied to the code by running, on every `reads` request, 24 ranges × 11 range APIs + aggregates + 12 point reads + cursor scripts + sorted reads on the read-write vector, its read-only clone and both stored-scan back-ends against the reference slice (oracle) and against the model's answer hash. C08_comp_history (Props/C08Comp.lean) discharges the page-index hypothesis: after EVERY history of pushes, truncations and writes on a compressed vector (any compressor answers) the page loop over the vector's own index returns, for every range inside the stored part, exactly the slice of the reference list.",
         level_note="Trusted: Lean kernel + standard axioms; hand-written model; harness. The merged iteration with holes AND overlay (dirtyStored in full) and the multi-page window of read_stored_pages_into are validated by the correspondence only. F22, F23, F25 found here were repaired by fix: commits.",
         technique="Lean 4 proof of read-path index arithmetic + exhaustive-per-state differential run of all read APIs against the reference slice",
     ),
